@@ -143,11 +143,16 @@ class User(callbacks.Plugin):
         except KeyError:
             pass
         user = ircdb.users.newUser()
-        user.name = name
-        user.setPassword(password)
-        if addHostmask:
-            user.addHostmask(msg.prefix)
-        ircdb.users.setUser(user)
+        try:
+            user.name = name
+            user.setPassword(password)
+            if addHostmask:
+                user.addHostmask(msg.prefix)
+            ircdb.users.setUser(user)
+        except ValueError:
+            # Don't leave the half-made user behind.
+            ircdb.users.delUser(user.id)
+            raise
         irc.replySuccess()
     register = wrap(register, ['private', 'something', 'something'])
 
@@ -196,8 +201,14 @@ class User(callbacks.Plugin):
             pass
         self._checkName(irc, newname)
         if user.checkHostmask(msg.prefix) or user.checkPassword(password):
+            oldname = user.name
             user.name = newname
-            ircdb.users.setUser(user)
+            try:
+                ircdb.users.setUser(user)
+            except ircdb.DuplicateHostmask:
+                user.name = oldname
+                ircdb.users.invalidateCache(user.id)
+                raise
             irc.replySuccess()
     changename = wrap(changename, ['private', 'otherUser', 'something',
                                    additional('something', '')])
@@ -401,6 +412,7 @@ class User(callbacks.Plugin):
                 if not ircdb.checkCapability(msg.prefix, 'owner'):
                     irc.error(conf.supybot.replies.incorrectAuthentication())
                     return
+            hostmasks = ircutils.IrcSet(user.hostmasks)
             try:
                 s = ''
                 if hostmask == 'all':
@@ -411,7 +423,11 @@ class User(callbacks.Plugin):
             except KeyError:
                 irc.error(_('There was no such hostmask.'))
                 return
-            ircdb.users.setUser(user)
+            try:
+                ircdb.users.setUser(user)
+            except ircdb.DuplicateHostmask:
+                user.hostmasks = hostmasks
+                raise
             irc.replySuccess(s)
         remove = wrap(remove, ['private', first('otherUser', 'user'),
                                optional('something'), additional('something', '')])
@@ -454,11 +470,13 @@ class User(callbacks.Plugin):
         not in a channel.
         """
         if user.checkPassword(password):
+            auth = list(user.auth)
             try:
                 user.addAuth(msg.prefix)
                 ircdb.users.setUser(user, flush=False)
                 irc.replySuccess()
             except ValueError:
+                user.auth = auth
                 irc.error(_('Your secure flag is true and your hostmask '
                           'doesn\'t match any of your known hostmasks.'))
         else:
@@ -476,8 +494,13 @@ class User(callbacks.Plugin):
         have added hostmasks to your user that can cause the bot to continue to
         recognize you.
         """
+        auth = user.auth
         user.clearAuth()
-        ircdb.users.setUser(user)
+        try:
+            ircdb.users.setUser(user)
+        except ircdb.DuplicateHostmask:
+            user.auth = auth
+            raise
         irc.replySuccess(_('If you remain recognized after giving this command, '
                          'you\'re being recognized by hostmask, rather than '
                          'by password.  You must remove whatever hostmask is '
